@@ -10,7 +10,7 @@ def sh(cmd, cwd=None, env=None, timeout=3600):
     p = subprocess.run(cmd, shell=True, cwd=cwd, capture_output=True, text=True, timeout=timeout, env=e)
     return p.returncode, p.stdout + p.stderr
 only = sys.argv[1:]
-resfile = os.path.join(ROOT, "seeded", "NEGCTL.json")
+resfile = os.path.join(ROOT, "seeded", os.environ.get("NEGCTL_OUT", "NEGCTL.json"))
 res = json.load(open(resfile)) if os.path.exists(resfile) else {}
 assert sh("git -C /repo status --porcelain")[1].strip() == "", "/repo not clean"
 for pid in sorted(os.listdir(SRC)):
@@ -34,7 +34,7 @@ for pid in sorted(os.listdir(SRC)):
                 summ = [l for l in out.split("\n") if re.match(r"C\d+ quick", l)]
                 runs[c] = {"exit": rc, "violation": viol[:1], "summary": summ[:1]}
         finally:
-            sh("git -C /repo checkout -- .")
+            sh("git -C /repo checkout -- . && git -C /repo clean -fdq")
         res[name] = {"kind": meta.get("kind"), "summary": meta.get("summary", "")[:300], "runs": runs,
                      "quiet": all(r["exit"] == 0 for r in runs.values())}
         print(name, res[name]["quiet"], {c: (r["exit"], r["violation"]) for c, r in runs.items()}, flush=True)
